@@ -494,3 +494,24 @@ Proof.
       rewrite E2 in Ed. injection Ed as <-.
       rewrite Ek, Ek2. cbn [map]. rewrite E3, E4. apply centred_ok; tauto.
 Qed.
+
+(* no panic at all for Text, RichText and TextField, and none for a Center/Button under bounded
+   constraints *)
+Lemma no_panic_leaves : forall rich soft lines chars maxw maxh,
+  0 <= maxw < 65536 -> 0 <= maxh < 65536 ->
+  draw (WText rich soft lines) maxw maxh <> DPanic /\ draw (WField chars) maxw maxh <> DPanic /\
+  (maxw < 65535 -> maxh < 65535 ->
+   draw (WCenter (WText rich soft lines)) maxw maxh <> DPanic /\ draw (WButton lines) maxw maxh <> DPanic).
+Proof.
+  intros rich soft lines chars maxw maxh Hw Hh.
+  pose proof (draw_contract_all (WText rich soft lines) maxw maxh Hw Hh) as H1.
+  pose proof (draw_contract_all (WField chars) maxw maxh Hw Hh) as H2.
+  pose proof (draw_contract_all (WCenter (WText rich soft lines)) maxw maxh Hw Hh) as H3.
+  pose proof (draw_contract_all (WButton lines) maxw maxh Hw Hh) as H4.
+  unfold draw_contract in *.
+  split; [intros E; rewrite E in H1; discriminate|].
+  split; [intros E; rewrite E in H2; discriminate|].
+  intros Hbw Hbh.
+  assert (Hu : (maxh =? 65535) || (maxw =? 65535) = false) by lia.
+  split; intros E; [rewrite E in H3 | rewrite E in H4]; cbn [contract_panic] in *; rewrite Hu in *; discriminate.
+Qed.
